@@ -28,7 +28,7 @@ def RepeatMap.keysDistinct : RepeatMap → Bool
   | [] => true
   | (k, _) :: rest => !(rest.any (·.1 == k)) && RepeatMap.keysDistinct rest
 
-theorem get?_perm (m m' : RepeatMap) (k : Appl × Bool) (h : List.Perm m m') (hd : RepeatMap.keysDistinct m = true) :
+theorem get_perm (m m' : RepeatMap) (k : Appl × Bool) (h : List.Perm m m') (hd : RepeatMap.keysDistinct m = true) :
     RepeatMap.get? m k = RepeatMap.get? m' k := by
   induction h with
   | nil => rfl
@@ -78,7 +78,7 @@ theorem get?_perm (m m' : RepeatMap) (k : Appl × Bool) (h : List.Perm m m') (hd
 /-- C19-2a: `trait_attrs_to_repeat.get(k)` is independent of the order of the entries -/
 theorem C19_repeat_lookup_order_free (m m' : RepeatMap) (k : Appl × Bool) (h : List.Perm m m')
     (hd : RepeatMap.keysDistinct m = true) : RepeatMap.get? m k = RepeatMap.get? m' k :=
-  get?_perm m m' k h hd
+  get_perm m m' k h hd
 
 /-- non-vacuity -/
 example : RepeatMap.keysDistinct [(([true], false), default), (([false], false), default)] = true := by decide
